@@ -666,6 +666,15 @@ class Eval:
             return self.block(e, env2, depth)
         if k == "Call":
             return self.call(e, env, depth)
+        if k == "MethodCall" and e.get("method") in ("write_str", "write_char") and len(e.get("args", [])) == 1 and "Formatter" in (e["recv"].get("ty", "") + e["recv"].get("ty_adj", "")):
+            # `f.write_str("text")` writes what `write!(f, "text")` writes; a non-literal argument is one hole
+            a_ = self.expr(e["args"][0], env, depth)
+            if isinstance(a_, tuple) and a_[:1] == ("lit",) and isinstance(a_[1], str):
+                w = ("write", a_[1].replace("{", "{{").replace("}", "}}"), ())
+            else:
+                w = ("write", "{}", (a_,))
+            self.out.append((self.full_conds(), tuple(self.loops), w))
+            return w
         if k == "MethodCall":
             return self.method(e, env, depth)
         if k == "Struct":
